@@ -53,6 +53,7 @@ type shScenario struct {
 	Race        bool
 	Cancels     bool // some calls carry short context deadlines (stale replies follow: attribution oracles off, transport monitors on)
 	FineGrained bool
+	Flusher     bool
 }
 
 type shRec struct {
@@ -135,6 +136,7 @@ func genC14(t *Tape) *shScenario {
 		sc.ConnectAt = time.Duration(t.Choose(60000)) * time.Microsecond
 	}
 	sc.DevDelay = []time.Duration{0, 200 * time.Microsecond, 3 * time.Millisecond}[t.Choose(3)]
+	sc.Flusher = sc.Kind == KSerial && t.Choose(2) == 1
 	sc.FineGrained = t.Chance(1, 3) // other tasks may also run between SetReadDeadline and Read of one loop iteration
 	if t.Chance(1, 4) {
 		sc.Cancels = true
@@ -341,6 +343,9 @@ func runShared(rc *RunCtx, sc *shScenario) *shOutcome {
 		cl.PortTimeout = 2 * time.Millisecond
 		cl.MinReadCost = 500 * time.Microsecond
 		var port io.ReadWriteCloser = plainPort{cl}
+		if sc.Flusher {
+			port = discardingFlushPort{cl} // a port whose Flush really discards what has not been read yet
+		}
 		c := modbus.NewSerialClient(port, modbus.WithSerialReadTimeout(200*time.Millisecond))
 		doer, closer = c, c.Close
 		connect = func() error { return nil }
@@ -552,6 +557,15 @@ func runC14(rc *RunCtx) {
 	if out.Foreign != "" {
 		rc.Violate("foreign_reply", base, "%s", out.Foreign)
 	}
+	if sc.CloseAt < 0 && sc.ConnectAt < 0 {
+		// nothing closes or replaces the connection and the device answers everything: every call must get its reply
+		for _, r := range out.Recs {
+			if r.Err != nil {
+				rc.Violate("call_failed_on_healthy_transport", base, "caller %d's call failed with %q although the transport was healthy and nobody closed the client", r.Caller, r.Err)
+				break
+			}
+		}
+	}
 	// linearizability of the recorded history against a 4-register file (checked outside the bubble: porcupine uses real timers)
 	recs := out.Recs
 	rc.PostBubble = append(rc.PostBubble, func() {
@@ -613,4 +627,25 @@ func describeHistory(recs []shRec) string {
 		}
 	}
 	return s
+}
+
+// discardingFlushPort is a serial port with Flusher whose Flush drops the bytes that have arrived but were not read.
+type discardingFlushPort struct{ c *Conn }
+
+func (p discardingFlushPort) Read(b []byte) (int, error)  { return p.c.Read(b) }
+func (p discardingFlushPort) Write(b []byte) (int, error) { return p.c.Write(b) }
+func (p discardingFlushPort) Close() error                { return p.c.Close() }
+func (p discardingFlushPort) Flush() error {
+	p.c.lock()
+	now := time.Now()
+	kept := p.c.in.segs[:0]
+	for _, sg := range p.c.in.segs {
+		if sg.at.IsZero() || sg.at.After(now) {
+			kept = append(kept, sg) // still in flight: a flush cannot reach it
+		}
+	}
+	p.c.in.segs = kept
+	p.c.sim.logLocked("flush %s", p.c.Name)
+	p.c.unlock()
+	return nil
 }
